@@ -253,11 +253,16 @@ def run_verify_add(ctx, n):
         pre = rng.random() < 0.3
         if pre:
             stores.put_raw(odb.path, oid, bad)  # a mismatching object is already sitting there
-        kind, res = safe_call(lambda: odb.add(p, fs, oid, on_error=lambda o, e: errs.append(o)))
+        # the source may be a write-protected file (an object of another cache, a protected workspace link) taken by hard link
+        hardlink = rng.random() < 0.4
+        if rng.random() < 0.5:
+            os.chmod(p, 0o444)
+        kind, res = safe_call(lambda: odb.add(p, fs, oid, hardlink=hardlink, on_error=lambda o, e: errs.append(o)))
         if st:
             st.close()
         snap = snapshot(odb)
-        case = {"verify_add": {"corrupt_source": corrupt, "mismatching_preexisting": pre, "local": local, "state": with_state}}
+        case = {"verify_add": {"corrupt_source": corrupt, "mismatching_preexisting": pre, "local": local, "state": with_state,
+                               "hardlink": hardlink, "source_mode": oct(os.stat(p).st_mode & 0o777)}}
         ctx.case(case, nontrivial=corrupt or pre)
         ctx.count("verify_add:corrupt=%s" % corrupt)
         ok = all(v[0] == o.split(".")[0] for o, v in snap.items())
